@@ -59,6 +59,14 @@ static void report (int e, int in, const char *kind, const char *detail) {
            (unsigned long long) gseed, gfeat, ptext);
 }
 
+/* Fill the stack area the next call will use with a pattern: a frame slot that generated code reads without having written it (a lost
+   spill store) must not find the right value left there by the previous engine's run of the same program. */
+static void __attribute__ ((noinline)) dirty_stack (int pat) {
+  volatile unsigned char area[48 * 1024];
+  memset ((void *) area, pat, sizeof area);
+  __asm__ volatile ("" : : "r"(area) : "memory");
+}
+
 /* run the program on engine e for all inputs (order given), compare with the reference observations */
 static int run_engine (int e, const int *order, int norder) {
   MIR_context_t ctx = vp_new_ctx ();
@@ -87,6 +95,7 @@ static int run_engine (int e, const int *order, int norder) {
     int in = order[oi];
     int64_t got = 0;
     memcpy (mainbuf, buf_init, PG_BUF); memcpy (gd->addr, cur_prog->data_init, PG_BUF); nelog = 0;
+    dirty_stack (0xa5 ^ (e * 16 + oi));
     if (VP_TRY) {
       if (e == E_INTERP) { MIR_val_t r, v[3]; v[0].a = mainbuf; v[1].i = inputs[in][0]; v[2].i = inputs[in][1]; MIR_interp_arr (ctx, entry, &r, 3, v); got = r.i; }
       else got = ((int64_t (*) (void *, int64_t, int64_t)) entry->addr) (mainbuf, inputs[in][0], inputs[in][1]);
